@@ -64,6 +64,8 @@ pub enum ConnErr {
     LocallyClosed,
     /// an error h3 does not know (transport-level)
     Undefined,
+    /// the transport adapter reports an internal error (h3 then closes with H3_INTERNAL_ERROR)
+    Internal,
 }
 
 #[derive(Default, Debug)]
@@ -87,6 +89,9 @@ pub struct Pipe {
     pub announced: bool,
     /// bytes handed to `send_data` that the transport has not taken yet (a write is in flight)
     pub pending_write: usize,
+    /// the transport reports this connection-level condition on reads of THIS stream only (the other
+    /// transport calls of the side - accept, open - are not failed or woken by it)
+    pub read_conn_err: Option<ConnErr>,
 }
 
 impl Pipe {
@@ -325,6 +330,18 @@ impl Net {
     }
 
     /// Make every transport call of `side` fail with `err` from now on.
+    /// The next read of stream `id` by `side` reports the connection-level condition `err`; nothing else is
+    /// failed or woken (a transport that notices the loss on one stream first).
+    pub fn raw_stream_read_conn_err(&self, side: usize, id: u64, err: ConnErr) {
+        let mut g = self.lock();
+        let st = g.stream(id);
+        let p = st.pipe_r(side).expect("read pipe");
+        p.read_conn_err = Some(err);
+        if let Some(w) = p.reader_waker.take() {
+            w.wake();
+        }
+    }
+
     pub fn inject_conn_err(&self, side: usize, err: ConnErr) {
         let mut g = self.lock();
         if g.sides[side].conn_err.is_none() {
@@ -475,6 +492,7 @@ impl Net {
                 Some(ConnErr::Timeout) => 1,
                 Some(ConnErr::LocallyClosed) => 2,
                 Some(ConnErr::Undefined) => 3,
+                Some(ConnErr::Internal) => 4,
             });
             h.u64(s.datagrams_in.len() as u64);
         }
